@@ -624,7 +624,7 @@ fn gen_level(t: &mut Tape<'_>, opts: &GenOpts, depth: usize, name: &str, inh: &I
                 a.help_heading = Some(if t.chance(1, 4) {
                     None
                 } else {
-                    Some((*t.pick(&["Custom", "Advanced things", "Options"])).to_owned())
+                    Some((*t.pick(&["Custom", "Advanced things", "Options", "custom", "CUSTOM", "Arguments"])).to_owned())
                 });
             }
             if t.chance(1, 8) {
